@@ -197,8 +197,8 @@ impl Prop for C11 {
 
     fn budget(&self, tier: Tier) -> usize {
         match tier {
-            Tier::Quick => 2600,
-            Tier::Thorough => 30000,
+            Tier::Quick => 1800,
+            Tier::Thorough => 16000,
             Tier::Search => 6000,
         }
     }
